@@ -1090,34 +1090,51 @@ namespace Pistache::Http::Experimental
 
     void Client::processRequestQueue()
     {
-        Guard guard(queuesLock);
+        // Pair queued requests with free connections under the lock, but start
+        // them after releasing it: starting a request can fail on the spot
+        // (the peer has closed the connection), and its completion handler
+        // calls back into this function.
+        std::vector<std::pair<std::shared_ptr<Connection>,
+                              std::shared_ptr<Connection::RequestData>>>
+            ready;
 
-        if (stopProcessPequestsQueues)
-            return;
-
-        for (auto& queues : requestsQueues)
         {
-            for (;;)
+            Guard guard(queuesLock);
+
+            if (stopProcessPequestsQueues)
+                return;
+
+            for (auto& queues : requestsQueues)
             {
-                const auto& domain = queues.first;
-                auto conn          = pool.pickConnection(domain);
-                if (!conn)
-                    break;
-
-                auto& queue = queues.second;
-                std::shared_ptr<Connection::RequestData> data;
-                if (!queue.dequeue(data))
+                for (;;)
                 {
-                    pool.releaseConnection(conn);
-                    break;
-                }
+                    const auto& domain = queues.first;
+                    auto conn          = pool.pickConnection(domain);
+                    if (!conn)
+                        break;
 
-                conn->performImpl(data->request, std::move(data->resolve),
-                                  std::move(data->reject), [this, conn]() {
-                                      pool.releaseConnection(conn);
-                                      processRequestQueue();
-                                  });
+                    auto& queue = queues.second;
+                    std::shared_ptr<Connection::RequestData> data;
+                    if (!queue.dequeue(data))
+                    {
+                        pool.releaseConnection(conn);
+                        break;
+                    }
+
+                    ready.emplace_back(std::move(conn), std::move(data));
+                }
             }
+        }
+
+        for (auto& entry : ready)
+        {
+            auto& conn = entry.first;
+            auto& data = entry.second;
+            conn->performImpl(data->request, std::move(data->resolve),
+                              std::move(data->reject), [this, conn]() {
+                                  pool.releaseConnection(conn);
+                                  processRequestQueue();
+                              });
         }
     }
 
